@@ -2091,3 +2091,119 @@ example : evalTextObjDelim ⟨"f(a)  z".toList.map (fun c => [c]), 2, true, fals
 example : evalTextObjDelim ⟨"a) b(".toList.map (fun c => [c]), 2, true, false, []⟩ ['('] [')'] false = .null := by decide
 
 end Vicut.DelimThms
+
+/-! ## Quote text objects `i"` `a"` `i'` `a'` (`text_obj_quote`) -/
+namespace Vicut.DelimThms
+open Vicut Vicut.Quote
+
+theorem back_sound (gs : List Gr) (q : Gr) :
+    ∀ (f : Nat) (ps : List Nat) (i : Nat), back gs q f ps = some i → i ∈ ps ∧ gs[i]? = some q := by
+  intro f
+  induction f with
+  | zero => intro ps i h; simp [back] at h
+  | succ f ih =>
+    intro ps i h
+    cases ps with
+    | nil => simp [back] at h
+    | cons p rest =>
+      unfold back at h
+      cases hg : gs[p]? with
+      | none => simp [hg] at h
+      | some g =>
+        simp only [hg] at h
+        by_cases h1 : g = q
+        · simp only [h1, if_true] at h
+          split at h
+          · cases h; exact ⟨List.mem_cons_self, by rw [hg, h1]⟩
+          · obtain ⟨a, b⟩ := ih _ i h
+            have : i ∈ rest := (List.dropWhile_sublist _).subset (List.mem_of_mem_drop a)
+            exact ⟨List.mem_cons_of_mem _ this, b⟩
+        · simp only [h1, if_false] at h
+          obtain ⟨a, b⟩ := ih _ i h
+          exact ⟨List.mem_cons_of_mem _ a, b⟩
+
+theorem fwd_sound (gs : List Gr) (q : Gr) :
+    ∀ (f : Nat) (ps : List Nat) (r : Nat × List Nat), fwd gs q f ps = some r →
+      r.1 ∈ ps ∧ gs[r.1]? = some q ∧ ∀ j ∈ r.2, j ∈ ps := by
+  intro f
+  induction f with
+  | zero => intro ps r h; simp [fwd] at h
+  | succ f ih =>
+    intro ps r h
+    cases ps with
+    | nil => simp [fwd] at h
+    | cons p rest =>
+      unfold fwd at h
+      cases hg : gs[p]? with
+      | none => simp [hg] at h
+      | some g =>
+        simp only [hg] at h
+        by_cases h1 : g = bs
+        · simp only [h1, if_true] at h
+          obtain ⟨a, b, c⟩ := ih _ r h
+          exact ⟨List.mem_cons_of_mem _ (List.mem_of_mem_drop a), b,
+            fun j hj => List.mem_cons_of_mem _ (List.mem_of_mem_drop (c j hj))⟩
+        · simp only [h1, if_false] at h
+          by_cases h2 : g = q
+          · simp only [h2, if_true] at h
+            cases h
+            exact ⟨List.mem_cons_self, by rw [hg, h2], fun j hj => List.mem_cons_of_mem _ hj⟩
+          · simp only [h2, if_false] at h
+            obtain ⟨a, b, c⟩ := ih _ r h
+            exact ⟨List.mem_cons_of_mem _ a, b, fun j hj => List.mem_cons_of_mem _ (c j hj)⟩
+
+/-- **Quote objects**: the span lies between two quote characters of the kind asked for, both on the
+cursor's line; `i"` is what is strictly between them, `a"` starts on the first and ends after the second. -/
+theorem textObjQuote_pair (s : MS) (q : Gr) (around : Bool) (a b : Nat) (hsc : s.sol ≤ s.cur)
+    (h : textObjQuote s q around = some (a, b)) :
+    ∃ st e, s.gs[st]? = some q ∧ s.gs[e]? = some q ∧ s.sol ≤ st ∧ e < s.eol ∧
+      (around = false → a = st + 1 ∧ b = e) ∧ (around = true → a = st ∧ e + 1 ≤ b ∧ b ≤ s.max) := by
+  unfold textObjQuote at h
+  simp only [Option.map_eq_some_iff] at h
+  obtain ⟨⟨st, e⟩, hpair, hr⟩ := h
+  have key : s.gs[st]? = some q ∧ s.gs[e]? = some q ∧ s.sol ≤ st ∧ e < s.eol := by
+    split at hpair
+    · rename_i st' hst
+      simp only [Option.map_eq_some_iff] at hpair
+      obtain ⟨r, hr', hq⟩ := hpair
+      cases hq
+      obtain ⟨m, x⟩ := back_sound _ _ _ _ _ hst
+      obtain ⟨m', x', _⟩ := fwd_sound _ _ _ _ _ hr'
+      simp [List.mem_range'] at m m'
+      exact ⟨x, x', by omega, by omega⟩
+    · split at hpair
+      · cases hpair
+      · rename_i st' rest hf
+        simp only [Option.map_eq_some_iff] at hpair
+        obtain ⟨r, hr', hq⟩ := hpair
+        cases hq
+        obtain ⟨m, x, sub⟩ := fwd_sound _ _ _ _ _ hf
+        obtain ⟨m', x', _⟩ := fwd_sound _ _ _ _ _ hr'
+        have m'' := sub _ m'
+        simp [List.mem_range'] at m m''
+        exact ⟨x, x', by omega, by omega⟩
+  refine ⟨st, e, key.1, key.2.1, key.2.2.1, key.2.2.2, ?_, ?_⟩
+  · intro ha
+    simp [ha] at hr
+    omega
+  · intro ha
+    simp [ha] at hr
+    have hlt : e < s.gs.length := (List.getElem?_eq_some_iff.mp key.2.1).1
+    have h1 := extendWs_ge s s.eol (s.eol - (e + 1)) (e + 1)
+    have h2 := extendWs_le s s.eol (s.eol - (e + 1)) (e + 1) (by show e + 1 ≤ s.gs.length; omega)
+    omega
+
+/-- the same for every cursor inside a text whose terminators are graphemes of their own -/
+theorem textObjQuote_pair_in_text (s : MS) (q : Gr) (around : Bool) (a b : Nat) (hc : s.cur ≤ s.max) (hnl : C09.NlAlone s.gs)
+    (h : textObjQuote s q around = some (a, b)) :
+    ∃ st e, s.gs[st]? = some q ∧ s.gs[e]? = some q ∧ s.sol ≤ st ∧ e < s.eol ∧
+      (around = false → a = st + 1 ∧ b = e) ∧ (around = true → a = st ∧ e + 1 ≤ b ∧ b ≤ s.max) :=
+  textObjQuote_pair s q around a b (Motions.thisLine_bounds s hc hnl).1 h
+
+/-- `say "hi \" there" now`: from inside the string, and from before it (the first pair after the cursor) -/
+example : evalTextObjQuote ⟨"say \"hi \\\" x\" now\n".toList.map (fun c => [c]), 7, true, false, []⟩ ['"'] false = .exclusive 5 12 := by decide
+example : evalTextObjQuote ⟨"say \"hi \\\" x\" now\n".toList.map (fun c => [c]), 0, true, false, []⟩ ['"'] false = .exclusive 5 12 := by decide
+/-- a lone quote is no object -/
+example : evalTextObjQuote ⟨"it's\n".toList.map (fun c => [c]), 0, true, false, []⟩ ['\''] false = .null := by decide
+
+end Vicut.DelimThms
